@@ -148,6 +148,8 @@ def _node_attr_val(eng, st, view, name):
         _frame_check(eng, st2, g.t, None, 'write-node-attr-' + suffix, ['nh:' + suffix, 'nv:' + suffix])
         if suffix == 'bonding':
             eng.check_bonding_write(st2, newv.t, None)
+        if suffix == 'fragid#l':
+            eng.check_fragid_write(st2, newv.t, None)
         st2.heap = st2.heap.set_nattr(g.t, n.t, suffix, newv.t)
     has = st.heap.nhas(g.t, n.t, suffix)
     return has, Val(ty, st.heap.nval(g.t, n.t, suffix), loc=writer)
@@ -259,6 +261,9 @@ def get_item(eng, st, base, key, node, spec=False):
         v.loc = writer
         return v
     if isinstance(ty, TDict):
+        if isinstance(key.ty, TOpt) and not isinstance(ty.key, TOpt):
+            key, notnone = ops.unwrap_opt(key)
+            eng.safety(st, notnone, node, 'dict-key-not-None', spec)
         v, safe = ops.dict_get(base, key)
         eng.safety(st, safe, node, 'dict-key', spec)
         if base.loc is not None or True:
@@ -311,9 +316,18 @@ def set_item(eng, st, base, key, value, node):
         if name is None:
             raise Unsupported('node attribute with a non-constant name')
         suffix, ty = _schema_attr(base.g, name)
+        value = lift(value)
+        if isinstance(value.ty, TOpt) and not isinstance(ty, TOpt):
+            # storing a possibly-None value under a typed attribute: None is outside the attribute's type
+            eng.oblige(st, 'type-inv', z3.Not(value.ty.is_none(value.t)), node, 'attr-%s-not-None' % name,
+                       detail='the value stored under %r is never None' % name)
+            st.assume(z3.Not(value.ty.is_none(value.t)))
+            value = Val(value.ty.inner, value.ty.get(value.t))
         _frame_check(eng, st, base.g.t, node, 'set-node-attr-' + name, ['nh:' + suffix, 'nv:' + suffix])
         if suffix == 'bonding':
             eng.check_bonding_write(st, ops.coerce(value, ty).t, node)
+        if suffix == 'fragid#l':
+            eng.check_fragid_write(st, ops.coerce(value, ty).t, node)
         st.heap = st.heap.set_nattr(base.g.t, base.n.t, suffix, ops.coerce(value, ty).t)
         return None
     if isinstance(base, AttrRec):
@@ -559,7 +573,15 @@ def apply_contract(eng, st, node, con, allow_raise):
         if k.startswith('self.') and '.' in con.qualname:
             pre.env[k] = v
     label = con.qualname.split('.')[-1]
+    missing = set(con.heap_invariants) - set(eng.c.heap_invariants)
+    if missing:
+        raise Unsupported('callee %s relies on the data invariant(s) %s which this contract does not declare' % (con.target, sorted(missing)))
     for p, value in con.fix.items():
+        if p not in con.types:
+            # constant-valued parameter (e.g. a default list): the call site must not override it
+            if p in bound:
+                raise Unsupported('call overrides the fixed parameter %s of %s' % (p, con.target))
+            continue
         goal = ops.equal(pre.env[p], lift(value))
         eng.oblige(st, 'call-pre', goal, node, '%s.fixed-%s' % (label, p), detail='%s == %r' % (p, value))
         pre.env[p] = lift(value)
@@ -611,6 +633,8 @@ def apply_contract(eng, st, node, con, allow_raise):
         res = fresh(rty, label + '_result')
         st.assume(*ops.wf_axioms(res))
         _assume_fresh_graphs(eng, st, res, before_heap)
+        if con.returns_fresh and isinstance(rty, TGraph):
+            st.assume(res.t >= before_heap.get('next_gid'))
     else:
         res = lift(None)
     post.env['result'] = res
@@ -619,6 +643,14 @@ def apply_contract(eng, st, node, con, allow_raise):
     old_state = pre
     old_state.heap = before_heap
     for e in con.ensures:
+        # clauses over the callee's own ghost variables are internal to its proof: not visible to callers
+        if con.ghosts and any(isinstance(n, ast.Name) and n.id in con.ghosts for n in ast.walk(ast.parse(e.strip(), mode='eval'))):
+            continue
+        # the caller's contract may restrict which callee postconditions it relies on (fewer hypotheses: sound, and
+        # keeps each query small — a caller is checked against the part of the callee contract it names)
+        sel = eng.c.callee_clauses.get(label)
+        if sel is not None and not any(x in e for x in sel):
+            continue
         st.assume(eng.spec_bool(e, post, old_state))
     # caller-side ghost code attached to this event
     run_events(eng, st, label, node, dict(pre.env), {}, res)
@@ -1213,6 +1245,10 @@ def g_add_node(eng, st, node, g, args, kwargs, spec):
             guard = st.copy()
             guard.assume(has)
             eng.check_bonding_write(guard, val.t, node)
+        if suffix == 'fragid#l' and not z3.is_false(z3.simplify(has)):
+            guard = st.copy()
+            guard.assume(has)
+            eng.check_fragid_write(guard, val.t, node)
         arr_h = heap.get('nh:' + suffix)
         arr_v = heap.get('nv:' + suffix)
         heap = heap.set('nh:' + suffix, z3.Store(arr_h, g.t, z3.Store(arr_h[g.t], n.t, z3.Or(has, arr_h[g.t][n.t]))))
@@ -1445,9 +1481,45 @@ def m_random_choices(eng, st, node, allow_raise=False):
     return outs
 
 
+def m_set_node_attributes(eng, st, node):
+    """networkx.set_node_attributes(G, values, name): scalar -> every node; dict -> the listed nodes that are in G."""
+    g = eng.ev(node.args[0], st)
+    values = lift(eng.ev(node.args[1], st)) if not isinstance(eng.ev(node.args[1], st), (AttrRec,)) else None
+    if len(node.args) < 3 and not any(k.arg == 'name' for k in node.keywords):
+        raise Unsupported('set_node_attributes without a name (dict of dicts)')
+    name_v = eng.ev(node.args[2], st) if len(node.args) > 2 else eng.ev([k.value for k in node.keywords if k.arg == 'name'][0], st)
+    name = _const_str(name_v)
+    if name is None:
+        raise Unsupported('set_node_attributes with a non-constant name')
+    suffix, ty = _schema_attr(g, name)
+    _frame_check(eng, st, g.t, node, 'set_node_attributes-' + name, ['nh:' + suffix, 'nv:' + suffix])
+    heap = st.heap
+    hasn = heap.get('hasn')[g.t]
+    nh, nv = heap.get('nh:' + suffix)[g.t], heap.get('nv:' + suffix)[g.t]
+    n = z3.Int(fresh_name('sn'))
+    if isinstance(values.ty, TDict):
+        sel = z3.And(values.ty.has(values.t)[n], hasn[n])
+        newv = ops.coerce(Val(values.ty.val, values.ty.valmap(values.t)[n]), ty).t
+    else:
+        sel = hasn[n]
+        newv = ops.coerce(values, ty).t
+        if suffix == 'bonding':
+            eng.check_bonding_write(st, newv, node)
+        if suffix == 'fragid#l':
+            eng.check_fragid_write(st, newv, node)
+    ops.CTX.depth = 0
+    nh2 = ops.mk_array(n, z3.Or(nh[n], sel), 'sna_h')
+    nv2 = ops.mk_array(n, z3.If(sel, newv, nv[n]), 'sna_v')
+    heap = heap.set('nh:' + suffix, z3.Store(heap.get('nh:' + suffix), g.t, nh2))
+    heap = heap.set('nv:' + suffix, z3.Store(heap.get('nv:' + suffix), g.t, nv2))
+    st.heap = heap
+    return lift(None)
+
+
 RAISING_MODELS = {'random.choice': m_random_choice, 'random.choices': m_random_choices}
 
 CANON_MODELS = {
+    'networkx.set_node_attributes': m_set_node_attributes,
     'collections:defaultdict': m_defaultdict,
     'numpy.array': m_np_array,
     'networkx.Graph': m_nx_graph,
